@@ -1,9 +1,19 @@
 (* Props/C12.v -- Constraint admission checks are exact and failed additions change nothing.
    Proved: crossspec_b is exactly "some constraint edge is properly crossed by the open segment"; the reported conflict lists and
    the returned chains are decided by checkers that are exactly their declarative statements.  The admission algorithm
-   (line iterator + conflict resolution) is not modelled; unchanged state after a refused addition is observed (full snapshot). *)
+   The admission algorithm is modelled (Tri/LineIter.v, Tri/AddConstraint.v) and tied to the code index-exactly (Check/RunModel.v, tag corr);
+   over that model: an addition is refused exactly when can_add_constraint answers false, and then the state is returned unchanged; an accepted
+   addition never changes a vertex position / payload or a table length and never clears a flag; one conflict region given as a strip is
+   re-triangulated with link-level well-formedness preserved, everything outside its faces untouched and flags added only on edges from its
+   first vertex to its target; a constraint that crosses free edges only (no vertex in between) preserves well-formedness and flags only edges
+   va -> vb; every accepted insertion between two vertices of a well-formed triangulation with counter-clockwise faces (through vertices,
+   along edges, across free edges) preserves link-level well-formedness, and sets flags only on edges whose two end points lie on the closed
+   segment va-vb (when the iteration does not end inside an overlapped edge). *)
 From Coq Require Import ZArith List Bool Arith.
 From SpadeV Require Import Geom.Pred Obs.State Obs.Spec Obs.SpecProp Obs.Query Obs.QueryProp Obs.QueryProofs.
+From SpadeV Require Import Obs.LineSpec Dcel.Raw Dcel.ProofsFlip Tri.Legalize Tri.LegalizeProofs Tri.LineIter Tri.LineIterProofs Tri.RemoveProofs
+  Tri.AddConstraint Tri.AddConstraintProofs Tri.AddConstraintRegionProofs Tri.AddConstraintIterProofs Tri.AddConstraintChainProofs Tri.AddConstraintFlagsProofs.
+Import ListNotations.
 
 Theorem C12_crossing_checker_is_spec : forall s pts a b, crossspec_b s pts a b = true <-> CrossSpec s pts a b.
 Proof. exact crossspec_b_spec. Qed.
@@ -13,6 +23,74 @@ Proof. exact conflicts_ok_spec. Qed.
 Theorem C12_chain_checker_is_spec : forall s pts va vb l, Query.chain_ok s pts va vb l = true <-> ChainOk s pts va vb l.
 Proof. exact chain_ok_spec. Qed.
 
+
+Theorem C12_refused_iff_cannot_add : forall pts fuel d va vb,
+  try_add_constraint_inner pts fuel d va vb = Some Refused <-> can_add_constraint pts fuel d va vb = Some false.
+Proof. exact refused_iff_cannot_add. Qed.
+Theorem C12_refused_unchanged : forall pts fuel d va vb,
+  try_add_constraint_inner pts fuel d va vb = Some Refused ->
+  add_constraint pts fuel d va vb = Some (d, []) /\ add_constraint_bool pts fuel d va vb = None.
+Proof. exact add_constraint_refused_unchanged. Qed.
+Theorem C12_accepted_keeps_vertices_and_sizes : forall pts fuel d va vb d' nc edges,
+  try_add_constraint_inner pts fuel d va vb = Some (Added d' nc edges) -> Keep d d'.
+Proof. exact add_constraint_Keep. Qed.
+Theorem C12_accepted_keeps_flags : forall pts fuel d va vb d' nc edges,
+  try_add_constraint_inner pts fuel d va vb = Some (Added d' nc edges) -> forall u, fl d u = true -> fl d' u = true.
+Proof. exact add_constraint_flags_monotone. Qed.
+Theorem C12_region_preserves_wellformedness : forall pts fuel d nc e0 rest v0 target d' nc' res,
+  DW d -> Strip d v0 e0 rest ->
+  resolve_conflict_region pts fuel d nc (e0 :: rest) target = Some (d', nc', res) ->
+  let F := e_face d (rev e0) :: map (e_face d) (e0 :: rest) in
+  DW d' /\
+  (forall x, ~ In (e_face d x) F -> half_edge d' x = half_edge d x) /\
+  (forall x, x < length (d_hedges d) -> In (e_face d x) F -> In (e_face d' x) F) /\
+  (forall u, fl d u = true -> fl d' u = true) /\
+  (forall u, fl d' u = true -> fl d u = true \/
+             exists x, x < length (d_hedges d) /\ as_undirected x = u /\ e_origin d' x = v0 /\ e_to d' x = target) /\
+  (forall e, res = Some e -> e < length (d_hedges d) /\ e_origin d' e = v0 /\ e_to d' e = target) /\
+  (forall x, fl d (as_undirected x) = true -> (forall e, In e (e0 :: rest) -> x <> e /\ x <> rev e) -> e_origin d' x = e_origin d x) /\
+  (forall e, res = Some e -> fl d' (as_undirected e) = true \/ e_to d e0 = target).
+Proof. exact resolve_conflict_region_DW. Qed.
+Theorem C12_crossing_constraint_preserves_wellformedness : forall pts fuel d va vb e0 rest d' nc edges,
+  DW d -> EdgesCcw pts d -> (forall e, e < length (d_hedges d) -> vpos pts (e_origin d e) <> vpos pts (e_to d e)) ->
+  va < length (d_verts d) ->
+  line_iter_handles pts fuel d va vb = Some (IV va :: map IX (e0 :: rest) ++ [IV vb]) ->
+  (forall e, In e (e0 :: rest) -> is_flagged d e = false) ->
+  try_add_constraint_inner pts fuel d va vb = Some (Added d' nc edges) ->
+  let F := e_face d (rev e0) :: map (e_face d) (e0 :: rest) in
+  DW d' /\
+  (forall x, ~ In (e_face d x) F -> half_edge d' x = half_edge d x) /\
+  (forall u, fl d u = true -> fl d' u = true) /\
+  (forall u, fl d' u = true -> fl d u = true \/
+             exists x, x < length (d_hedges d) /\ as_undirected x = u /\ e_origin d' x = va /\ e_to d' x = vb) /\
+  (forall e, In e edges -> e < length (d_hedges d) /\ e_origin d' e = va /\ e_to d' e = vb /\ is_flagged d' e = true).
+Proof. exact add_constraint_crossing_DW. Qed.
+Theorem C12_constraint_insertion_preserves_wellformedness : forall pts fuel d va vb items d' nc edges,
+  DW d -> EdgesCcw pts d -> (forall e, e < length (d_hedges d) -> vpos pts (e_origin d e) <> vpos pts (e_to d e)) ->
+  va < length (d_verts d) ->
+  line_iter_handles pts fuel d va vb = Some items ->
+  try_add_constraint_inner pts fuel d va vb = Some (Added d' nc edges) -> DW d'.
+Proof. exact add_constraint_DW. Qed.
+Theorem C12_flags_only_on_the_segment : forall pts fuel d va vb items d' nc edges,
+  DW d -> EdgesCcw pts d -> (forall e, e < length (d_hedges d) -> vpos pts (e_origin d e) <> vpos pts (e_to d e)) ->
+  va < length (d_verts d) ->
+  line_iter_handles pts fuel d va vb = Some items -> (forall e, last items (IV va) <> IO e) ->
+  try_add_constraint_inner pts fuel d va vb = Some (Added d' nc edges) ->
+  forall u, fl d' u = true ->
+    fl d u = true \/
+    exists x, x < length (d_hedges d) /\ as_undirected x = u /\
+              on_seg (vpos pts va) (vpos pts vb) (vpos pts (e_origin d' x)) = true /\
+              on_seg (vpos pts va) (vpos pts vb) (vpos pts (e_to d' x)) = true.
+Proof. exact add_constraint_flags_on_segment. Qed.
+
 Print Assumptions C12_crossing_checker_is_spec.
 Print Assumptions C12_conflict_list_checker_is_spec.
 Print Assumptions C12_chain_checker_is_spec.
+Print Assumptions C12_refused_iff_cannot_add.
+Print Assumptions C12_refused_unchanged.
+Print Assumptions C12_accepted_keeps_vertices_and_sizes.
+Print Assumptions C12_accepted_keeps_flags.
+Print Assumptions C12_region_preserves_wellformedness.
+Print Assumptions C12_crossing_constraint_preserves_wellformedness.
+Print Assumptions C12_constraint_insertion_preserves_wellformedness.
+Print Assumptions C12_flags_only_on_the_segment.
